@@ -81,6 +81,13 @@ Definition py4hw_loop_limit : nat := 1000.
 Definition topologicalSort (tbl : list (list nat)) : sort_result :=
   sort_fuel (succ_tbl tbl) py4hw_loop_limit (seq 0 (length tbl)).
 
+(* the pass limit as the code computes it from the number of leaves; the check reads the expression of the
+   `if (loopcount > ...)` test from /repo on every run and evaluates it for each netlist (constant 1000 at the pinned
+   commit; max(1000, n + 1) with fixes/C04-passlimit.diff) *)
+Definition topologicalSort_with (lim : nat) (tbl : list (list nat)) : sort_result :=
+  sort_fuel (succ_tbl tbl) lim (seq 0 (length tbl)).
+Definition scaled_limit (n : nat) : nat := Nat.max py4hw_loop_limit (S n).
+
 (* printable encoding for the correspondence cases: (0, order) | (1, [leaf named by the loop error]) | (2, []) *)
 Definition encode (r : sort_result) : nat * list nat :=
   match r with Sorted l => (0, l) | LoopError x => (1, [x]) | LimitError => (2, []) end.
